@@ -111,10 +111,10 @@ class C06(runner.Check):
 			"generator (fault seam)", "caller thread (baton-passed: one runs at a time)"],
 	}
 	tiers = {
-		"quick": {"legs": [("clean", 1000), ("faulty", 500)], "wall_cap_s": 900,
-			"chunk": 10},
-		"thorough": {"legs": [("clean", 40000), ("faulty", 20000)], "wall_cap_s": 5400,
-			"chunk": 40},
+		"quick": {"legs": [("clean", 1000), ("faulty", 500), ("scale", 14)],
+			"wall_cap_s": 900, "chunk": 10},
+		"thorough": {"legs": [("clean", 40000), ("faulty", 20000), ("scale", 400)],
+			"wall_cap_s": 5400, "chunk": 40},
 	}
 
 	def prepare(self, tier, fresh=False):
@@ -139,6 +139,8 @@ class C06(runner.Check):
 		# everything is subnormal)
 		mspec["legacy_bwd_history"] = False
 		mspec["tiny_weights"] = False
+		if leg == "scale":
+			return self._gen_scale(seed, S, mspec)
 		n = r.wchoice([r.randint(1, 6), r.randint(9, 12)], [6, 1])
 		ns = r.randint(1, 6) if n <= 6 else r.randint(1, 3)
 		# the reference *function*: the default dinucleotide shuffle, or the plain
@@ -202,6 +204,109 @@ class C06(runner.Check):
 			ops.append(op)
 		return {"leg": leg, "seed": seed, "model": mspec, "world": world, "ops": ops}
 
+	def _gen_scale(self, seed, S, mspec):
+		"""One call at a scale the session legs never reach: more (example, shuffle)
+		rows in one batch than any internal group size, or more examples than a
+		16-bit index holds; sampled rows are compared with the example alone."""
+		z = S("scale")
+		L = mspec["L"]
+		if z.chance(0.3):
+			n = z.choice([32768, 32768, 65536]) + z.randint(2, 40)
+			ns = 1
+			shape = "many_examples"
+			bs = z.choice([4096, 20000, n])
+		else:
+			n = z.randint(20, 90)
+			ns = z.randint(12, 40)
+			shape = "wide_batch"
+			bs = z.choice([1025, 1500, 4096, n * ns, z.randint(1025, max(1026, n * ns))])
+		world = {"n": n, "n_shuffles": ns, "refgen": "dinucleotide_shuffle",
+			"xseed": z.subseed(), "random_state": z.randint(0, 1000),
+			"target": z.randint(0, mspec["n_targets"] - 1)}
+		k = min(n, 16)
+		sample = sorted(set([0, 1, n - 1, n - 2] + [z.randint(0, n - 1) for _ in range(k)]
+			+ ([32767, 32768, 32769] if n > 32769 else [])
+			+ ([65535, 65536, 65537] if n > 65537 else [])))
+		return {"leg": "scale", "seed": seed, "model": mspec, "world": world,
+			"shape": shape, "batch_size": bs, "sample": [i for i in sample if 0 <= i < n],
+			"refs": z.wchoice(["gen", "tensor"], [3, 1]),
+			"mode": z.wchoice(["processed", "hypothetical", "raw"], [3, 2, 2]), "ops": []}
+
+	def _run_scale(self, case):
+		from engines import modelworld as mw
+		out = core.Outcome()
+		log = core.EventLog()
+		mspec, world = case["model"], case["world"]
+		log.log("case", mspec, world, case["shape"], case["batch_size"], case["sample"])
+		dt = torch.float64
+		n, ns, L = world["n"], world["n_shuffles"], mspec["L"]
+		X = mw.gen_onehot(world["xseed"], n, L, dtype=dt)
+		args = mw.make_args(mspec, n, dt) if mspec.get("n_args", 0) else None
+		pristine = mw.build_model(mspec)
+		mw.set_plan(mw.FaultPlan(None))
+		mode = case["mode"]
+		cond = _Conditioning()
+		canon, canon_refs = {}, {}
+		try:
+			for i in case["sample"]:
+				a_i = None if args is None else tuple(a[i:i + 1] for a in args)
+				m_i = mw.clone_model(pristine)
+				cond.observe(m_i)
+				res = self._dls(m_i, X[i:i + 1], a_i, mode, world, batch_size=ns,
+					return_references=True)
+				canon[i], canon_refs[i] = res[0][0], res[1][0]
+		except Exception as e:
+			out.skipped = "canonical run raises %s: %s" % (type(e).__name__, str(e)[:60])
+			out.digest = log.digest()
+			return out
+		if cond.reason:
+			out.skipped = "ill-conditioned world: " + cond.reason
+			out.digest = log.digest()
+			return out
+		out.bump("scale." + case["shape"])
+		out.bump("scale.rows_in_one_call", n * ns)
+		out.steps += 1
+		desc = "deep_lift_shap over %d examples x %d shuffles, batch_size=%d, %s" % (n, ns,
+			case["batch_size"], mode)
+		key = {"shape": case["shape"]}
+		refs = None
+		if case["refs"] == "tensor":
+			# a caller-owned reference tensor: the sampled rows get their canonical
+			# references, every other row a shifted copy of its own sequence
+			refs = torch.roll(X, 1, dims=-1)[:, None].repeat(1, ns, 1, 1).contiguous()
+			for i in case["sample"]:
+				refs[i] = canon_refs[i]
+		try:
+			res = self._dls(mw.clone_model(pristine), X, args, mode, world, refs=refs,
+				batch_size=case["batch_size"], return_references=(refs is None))
+		except Exception as e:
+			out.violate("call_raised", "%s raised %s: %s although every sampled example "
+				"alone succeeds" % (desc, type(e).__name__, str(e)[:200]), key=key)
+			out.digest = log.digest()
+			return out
+		got_refs = None
+		if refs is None:
+			res, got_refs = res
+		tol = 1e-9
+		for i in case["sample"]:
+			want = canon[i]
+			scale = float(want.abs().max()) + 1e-30
+			err = float((res[i].to(torch.float64) - want.to(torch.float64)).abs().max())
+			log.log("row", i, res[i])
+			if not (err <= tol * max(scale, 1.0)):
+				out.violate("attribution_differs", "%s: example %d differs from the "
+					"attribution of that example computed alone: max|d|=%.3g (row scale "
+					"%.3g)" % (desc, i, err, scale), key=key)
+				break
+			if got_refs is not None and mw._tbytes(got_refs[i]) != mw._tbytes(canon_refs[i]):
+				out.violate("references_differ", "%s: returned references of example %d "
+					"differ from the references of that example alone" % (desc, i), key=key)
+				break
+		out.digest = log.digest()
+		out.sample = {"leg": "scale", "seed": case.get("seed"), "n": n, "n_shuffles": ns,
+			"L": L, "shape": case["shape"], "batch_size": case["batch_size"]}
+		return out
+
 	# -- execution -----------------------------------------------------------
 	def _dls(self, model, X, args, op_or_mode, world, refs=None, batch_size=None,
 		return_references=False, refgen=None, seed_type="int", extra_ops=None,
@@ -242,6 +347,8 @@ class C06(runner.Check):
 		from engines import modelworld as mw, modelops as mo
 		from tangermeme.ersatz import dinucleotide_shuffle
 		import numba
+		if case["leg"] == "scale":
+			return self._run_scale(case)
 		out = core.Outcome()
 		log = core.EventLog()
 		mspec, world = case["model"], case["world"]
@@ -604,6 +711,8 @@ class C06(runner.Check):
 		b = minimise.Budget(80)
 		test = lambda c: self.still_fails(c, klass, None)
 		case = copy.deepcopy(case)
+		if case["leg"] == "scale":
+			return case                  # one call; nothing to drop
 		case = minimise.ddmin_list(case, ["ops"], test, b, min_len=1)
 		return case
 
